@@ -262,6 +262,17 @@ def run(ctx):
     table(ctx, 'ROUTE', 'SolarDay::get_index_in_year', doy_dom(1582) + doy_dom(2024) + doy_dom(1900), lambda x: py(t.m(cm.solar_day(*x), 'get_index_in_year')), lambda x: CAL.jdn(*x) - CAL.jdn(x[0], 1, 1),
           'day-of-year = days since January 1 (every day of 1582, 1900, 2024)', str, fn_site(p, 'SolarDay::get_index_in_year'))
 
+    # month lengths as the user meets them: the listed days of a month are exactly the dates that exist in it (its length is their number)
+    def mlist(x):
+        sm = I.call('SolarMonth::from_ym', [x[0], x[1]])
+        return ([cm.ymd_of(d) for d in t.m(sm, 'get_days')], py(t.m(sm, 'get_day_count')))
+
+    def mlist_orc(x):
+        ds = [(x[0], x[1], d) for d in range(1, 32) if CAL.exists(x[0], x[1], d)]
+        return (ds, len(ds))
+    table(ctx, 'ROUTE', 'SolarMonth::get_days', [(1, 1), (4, 2), (1582, 9), (1582, 10), (1582, 11), (1700, 2), (1900, 2), (2000, 2), (2024, 2), (2023, 12), (9999, 12)], mlist, mlist_orc,
+          'the days a month lists are exactly the dates that exist in it, in order (October 1582: 1-4 and 15-31), and their number is the month length', lambda x: '%d-%d' % x, fn_site(p, 'SolarMonth::get_days'))
+
     if ctx.tier == 'thorough':
         import witness
         witness.run(ctx, {'SolarDayGuarded': 'SolarDay fields are private: no value can be built around SolarDay::new', 'ValuesGuarded': 'SolarTime / LunarMonth / SolarYear fields are private',
